@@ -23,6 +23,16 @@ def main():
           'any other violation of the same property.', '']
     for f in kf['findings']:
         s5.append(f'* **{f["property"]}** `{f["signature"]}` - {f["what"]}')
+    if not kf['findings']:
+        s5 = ['### 0.5 Findings recorded, not repaired (known_findings.json "findings")', '',
+              'None. The last two (C03 / C10: the partial results of a failed statement stayed on the operand stack when its error',
+              'was handled) needed a new mechanism and were repaired once a sub-agent showed that a RETURN could take a partial',
+              'result for its address. The repair took three forms (`b90bde6` + `bd03c23`: depth noted at statement starts;',
+              '`c4671c2`: dropped at RESUME; `20d68b9`: the GOSUB return addresses are marked and the stack is cut back to the innermost',
+              'one when the handler is entered - no debug info involved): the first broke C08, the second C03, and the checks said',
+              'so each time. `413459d` repairs what the finding had masked. The mechanism is Model/StmtDepth.lean, its theorems',
+              'are in Props/C10.lean. A listed finding prints a',
+              '`KNOWN-FINDING:` line and any other violation of the same property is still reported; that machinery stays.']
     s5.append('')
     m = re.search(r'### 0\.4 .*?(?=### 0\.6 )', text, re.S)
     text = text[:m.start()] + '\n'.join(s4) + '\n' + '\n'.join(s5) + '\n' + text[m.end():]
